@@ -6,6 +6,7 @@ package distiller
 
 import (
 	"fmt"
+	nurl "net/url"
 	"regexp"
 	"strings"
 	"testing"
@@ -249,16 +250,22 @@ func govcC09Diff(a, b []string) string {
 	return fmt.Sprintf("first difference at word %d: text has %q, HTML has %q (%d vs %d words)", i, ctx(a), ctx(b), len(a), len(b))
 }
 
+// govcC09ParseSrcset returns the URLs of the image candidates of a srcset attribute. It follows the splitting
+// rules of the HTML standard ("parse a srcset attribute"): white space and commas before a candidate are
+// skipped; the URL is the following run of non-white-space characters, so it may contain commas; if that run
+// ends with commas they are removed and the candidate has no descriptors; otherwise the descriptors extend to
+// the next comma that is not inside parentheses. Candidates with malformed descriptors (e.g. upper-case units)
+// are kept: the harness only needs the set of URLs that the attribute offers.
 func govcC09ParseSrcset(s string) []string {
 	var out []string
 	i := 0
 	isWS := func(c byte) bool { return c == ' ' || c == '\t' || c == '\n' || c == '\r' || c == '\f' }
-	for i < len(s) {
+	for {
 		for i < len(s) && (isWS(s[i]) || s[i] == ',') {
 			i++
 		}
 		if i >= len(s) {
-			break
+			return out
 		}
 		j := i
 		for j < len(s) && !isWS(s[j]) {
@@ -270,12 +277,63 @@ func govcC09ParseSrcset(s string) []string {
 			out = append(out, strings.TrimRight(u, ","))
 			continue
 		}
-		for i < len(s) && s[i] != ',' {
-			i++
-		}
 		out = append(out, u)
+		// descriptors: up to the next comma outside parentheses
+		parens := false
+		for i < len(s) {
+			c := s[i]
+			i++
+			if parens {
+				if c == ')' {
+					parens = false
+				}
+				continue
+			}
+			if c == '(' {
+				parens = true
+			} else if c == ',' {
+				break
+			}
+		}
 	}
-	return out
+}
+
+// govcC09SrcsetSelfTest checks the parser on the shapes that the generator uses.
+func govcC09SrcsetSelfTest() string {
+	for _, tc := range []struct {
+		in   string
+		want []string
+	}{
+		{"", nil},
+		{" \n ", nil},
+		{"a.jpg", []string{"a.jpg"}},
+		{"a.jpg 1x, b.jpg 2x", []string{"a.jpg", "b.jpg"}},
+		{"a.jpg 1x,b.jpg 2x", []string{"a.jpg", "b.jpg"}},
+		{"a.jpg 1x , b.jpg 2x", []string{"a.jpg", "b.jpg"}},
+		{"a.jpg, b.jpg 2x", []string{"a.jpg", "b.jpg"}},
+		{"a.jpg,b.jpg 2x", []string{"a.jpg,b.jpg"}},
+		{"a.jpg,b.jpg", []string{"a.jpg,b.jpg"}},
+		{"a.jpg,, b.jpg", []string{"a.jpg", "b.jpg"}},
+		{"a.jpg ,b.jpg", []string{"a.jpg", "b.jpg"}},
+		{"a.jpg 1x, b.jpg 2x,", []string{"a.jpg", "b.jpg"}},
+		{"a.jpg 1x, b.jpg 2x, ", []string{"a.jpg", "b.jpg"}},
+		{" ,, a.jpg 1x ,, b.jpg 2x ,", []string{"a.jpg", "b.jpg"}},
+		{"\n\ta.jpg 2X,\n\tb.jpg 800W\n", []string{"a.jpg", "b.jpg"}},
+		{"/cdn/c_fill,w_400,h_300/wing.jpg 400w, /cdn/c_fill,w_800,h_600/wing.jpg 800w", []string{"/cdn/c_fill,w_400,h_300/wing.jpg", "/cdn/c_fill,w_800,h_600/wing.jpg"}},
+		{"/cdn/c_fill,w_400/wing.jpg 400w,/cdn/c_fill,w_800/wing.jpg 800w,", []string{"/cdn/c_fill,w_400/wing.jpg", "/cdn/c_fill,w_800/wing.jpg"}},
+		{"/cdn/c_fill,w_400/wing.jpg, /cdn/c_fill,w_800/wing.jpg", []string{"/cdn/c_fill,w_400/wing.jpg", "/cdn/c_fill,w_800/wing.jpg"}},
+		{"data:image/png;base64,AAAA 1x, data:image/png;base64,BBBB 2x", []string{"data:image/png;base64,AAAA", "data:image/png;base64,BBBB"}},
+		{"data:image/png;base64,AAAA,data:image/png;base64,BBBB", []string{"data:image/png;base64,AAAA,data:image/png;base64,BBBB"}},
+		{"a%20b.jpg 1.5x, /t/400x300,q80/c.jpg 3x", []string{"a%20b.jpg", "/t/400x300,q80/c.jpg"}},
+		{"a.jpg 100w 50h, b.jpg 200w 100h", []string{"a.jpg", "b.jpg"}},
+		{"a.jpg calc(1,2)x, b.jpg", []string{"a.jpg", "b.jpg"}},
+		{"/i.php?s=4,3&f=j 1x, /i.php?s=8,6&f=j 2x", []string{"/i.php?s=4,3&f=j", "/i.php?s=8,6&f=j"}},
+	} {
+		if got := govcC09ParseSrcset(tc.in); strings.Join(got, "\x00") != strings.Join(tc.want, "\x00") {
+			return fmt.Sprintf("srcset %q is split into %q, the HTML standard gives %q", tc.in, got, tc.want)
+		}
+	}
+	return ""
 }
 
 // image URLs of the distilled HTML in document order (img, and source inside picture; per element
@@ -315,7 +373,7 @@ func TestGovcViewsReplay(t *testing.T) {
 	seen := map[string]bool{}
 	defer func() {
 		fmt.Printf("GOVC-CASES evaluations=%d distinct_nontrivial=%d rule=%s\n", evals, nontrivial,
-			"articles = 2-3 long prose paragraphs (48 words each) with one or two probe blocks between them: 20 block kinds (paragraph, inline markup+br, paragraph with hidden spans, ul, ol, blockquote, pre, h2, data table, table with images, figure with caption link + hidden span x {display:none, visibility:hidden, aria-hidden}, figure without caption link, figure with picture, img src+srcset, picture, video with fallback text, youtube iframe, tweet) singly and in all ordered pairs, with <title>+matching h1; plus text-only kinds in all ordered pairs x {empty <title>, no <title>} with punctuation-free ascii prose for the WordCount check. Text/HTML compared (a) with all white space removed and (b) as word sequences where every text node is a run of its own and . ? ! , ; are separate tokens; non-trivial = every probe block of the case was retained in the result (marker word in Text / element in Node), the text has at least 50 words and, for WordCount, no title was detected")
+			"articles = 2-3 long prose paragraphs (48 words each) with one or two probe blocks between them: 20 block kinds (paragraph, inline markup+br, paragraph with hidden spans, ul, ol, blockquote, pre, h2, data table, table with images, figure with caption link + hidden span x {display:none, visibility:hidden, aria-hidden}, figure without caption link, figure with picture, img src+srcset, picture, video with fallback text, youtube iframe, tweet) singly and in all ordered pairs, with <title>+matching h1; plus text-only kinds in all ordered pairs x {empty <title>, no <title>} with punctuation-free ascii prose for the WordCount check; plus srcset shapes (keys srcset/...): 7 kinds of candidate URLs (plain, commas in the path as written by image CDNs in two styles, commas in the query, data: URIs, encoded spaces, parentheses) x 9 descriptor styles (density, width, none, upper-case density and width, fractional density, first or last candidate without descriptor, width+height) x 6 separators (comma+space, comma only, space+comma+space, comma+newline+tabs, trailing comma, leading/trailing white space) x 7 carriers (img, img without src, picture>source, figure>img, figure>picture>source, img in a data table, lazy data-srcset) with absolute URLs, and x 2 separators with relative URLs and Options.OriginalURL; srcset candidates of Result.Node are split as the HTML standard prescribes (self-tested parser). Text/HTML compared (a) with all white space removed and (b) as word sequences where every text node is a run of its own and . ? ! , ; are separate tokens; non-trivial = every probe block of the case was retained in the result (marker word in Text / element in Node), the text has at least 50 words and, for WordCount, no title was detected; a srcset case is non-trivial when its image element is in Result.Node with its srcset and ContentImages lists a candidate of it")
 	}()
 	blocks := govcC09Blocks()
 
@@ -325,6 +383,11 @@ func TestGovcViewsReplay(t *testing.T) {
 		probes   []int // indices into blocks
 		untitled bool
 		textOnly bool
+		pageURL  string // srcset shape cases: Options.OriginalURL (relative image URLs), "" = no options
+		marker   string // srcset shape cases: part of the image URLs that shows that the image element was retained
+	}
+	if msg := govcC09SrcsetSelfTest(); msg != "" {
+		t.Errorf("GOVC-FAIL harness/srcset-parser :: harness error: %s", msg)
 	}
 	var cases []genCase
 	article := func(head string, h1 string, punct bool, parts ...string) string {
@@ -363,18 +426,64 @@ func TestGovcViewsReplay(t *testing.T) {
 		}
 	}
 
+	// srcset and URL shapes (appended; the keys above are unchanged): 7 kinds of candidate URLs (commas inside the
+	// URL as image CDNs write them, data: URIs, encoded spaces, parentheses ...) x 9 descriptor styles x 6 ways of
+	// separating the candidates x 7 carrier elements, with absolute URLs, and with relative URLs + OriginalURL for
+	// two separators. The candidates are read from Result.Node with govcC09ParseSrcset on both sides.
+	shapeCases := 0
+	for _, rel := range []bool{false, true} {
+		for ci, carrier := range govcC09SrcsetCarriers {
+			for si, sh := range govcC09SrcsetShapes(rel) {
+				if sh.once && carrier.key != "img" {
+					continue
+				}
+				marker := fmt.Sprintf("zq%dc%ds%d", map[bool]int{false: 0, true: 1}[rel], ci, si)
+				src, srcset := sh.build(marker)
+				gc := genCase{key: "srcset/" + map[bool]string{false: "abs", true: "rel"}[rel] + "/" + carrier.key + "/" + sh.key, html: article(head, h1, true, carrier.build(src, srcset, marker)), marker: marker}
+				if rel {
+					gc.pageURL = "https://news.example.org/2020/06/harbour-report.html"
+				}
+				cases = append(cases, gc)
+				shapeCases++
+			}
+		}
+	}
+
 	for _, gc := range cases {
 		if seen[gc.key] {
 			t.Fatalf("duplicate case key %s", gc.key)
 		}
 		seen[gc.key] = true
-		res, err := ApplyForReader(strings.NewReader(gc.html), nil)
+		var opts *Options
+		if gc.pageURL != "" {
+			pageURL, _ := nurl.ParseRequestURI(gc.pageURL)
+			opts = &Options{OriginalURL: pageURL}
+		}
+		res, err := ApplyForReader(strings.NewReader(gc.html), opts)
 		evals++
 		if err != nil || res == nil || res.Node == nil {
 			t.Errorf("GOVC-FAIL %s :: distillation failed: %v", gc.key, err)
 			continue
 		}
 		kept := true
+		if gc.marker != "" {
+			// srcset shape case: the image element is in the result with a srcset, and ContentImages lists one of its candidates
+			kept = false
+			listed := false
+			for _, n := range dom.QuerySelectorAll(res.Node, "img,source") {
+				if ss := dom.GetAttribute(n, "srcset"); strings.Contains(ss, gc.marker) {
+					kept = true
+					for _, u := range govcC09ParseSrcset(ss) {
+						for _, im := range res.ContentImages {
+							if im == u {
+								listed = true
+							}
+						}
+					}
+				}
+			}
+			kept = kept && listed
+		}
 		for pi, bi := range gc.probes {
 			if !blocks[bi].retained(pi+1, res) {
 				kept = false
@@ -436,4 +545,135 @@ func TestGovcViewsReplay(t *testing.T) {
 			}
 		}
 	}
+}
+
+// ---- srcset / URL shapes ----
+
+type govcC09SrcsetCarrier struct {
+	key   string
+	build func(src, srcset, marker string) string
+}
+
+var govcC09SrcsetCarriers = []govcC09SrcsetCarrier{
+	{"img", func(src, srcset, m string) string {
+		return `<img src="` + src + `" srcset="` + srcset + `" alt="the harbour" width="800" height="600">`
+	}},
+	{"img-nosrc", func(src, srcset, m string) string {
+		return `<img srcset="` + srcset + `" sizes="(min-width: 600px) 50vw, 100vw" alt="the harbour" width="800" height="600">`
+	}},
+	{"picture-source", func(src, srcset, m string) string {
+		return `<picture><source srcset="` + srcset + `" type="image/webp"><img src="` + src + `" alt="sandbanks" width="800" height="600"></picture>`
+	}},
+	{"figure-img", func(src, srcset, m string) string {
+		return `<figure><img src="` + src + `" srcset="` + srcset + `" alt="cranes" width="800" height="600"><figcaption>Cranes at the terminal during the night shift.</figcaption></figure>`
+	}},
+	{"figure-picture", func(src, srcset, m string) string {
+		return `<figure><picture><source srcset="` + srcset + `" media="(min-width: 600px)"><img src="` + src + `" srcset="` + srcset + `" alt="ferry"></picture><figcaption>The last ferry, <a href="/credits/` + m + `">photo credit</a> archive</figcaption></figure>`
+	}},
+	{"table-img", func(src, srcset, m string) string {
+		return `<table><caption>Charts per year</caption><thead><tr><th>Year</th><th>Containers</th><th>Chart</th></tr></thead><tbody>` +
+			`<tr><td>2019</td><td>120000</td><td><img src="` + src + `" srcset="` + srcset + `" alt="chart"></td></tr>` +
+			`<tr><td>2020</td><td>135000</td><td>none</td></tr><tr><td>2021</td><td>150500</td><td>none</td></tr></tbody></table>`
+	}},
+	{"lazy-srcset", func(src, srcset, m string) string {
+		return `<img data-srcset="` + srcset + `" alt="the quay" width="800" height="600">`
+	}},
+}
+
+type govcC09SrcsetShape struct {
+	key   string
+	once  bool // only with the plain img carrier
+	build func(marker string) (src, srcset string)
+}
+
+// govcC09SrcsetShapes crosses URL kinds, descriptor styles and separators; three candidates per srcset.
+func govcC09SrcsetShapes(rel bool) []govcC09SrcsetShape {
+	base := "http://img.example.org"
+	if rel {
+		base = ""
+	}
+	type urlKind struct {
+		key string
+		url func(m string, k int) string
+	}
+	urlKinds := []urlKind{
+		{"plain", func(m string, k int) string { return fmt.Sprintf("%s/media/%s-%d00.jpg", base, m, k) }},
+		{"cdn-commas", func(m string, k int) string { return fmt.Sprintf("%s/cdn/c_fill,w_%d00,h_%d50/%s.jpg", base, k, k, m) }},
+		{"size-comma", func(m string, k int) string { return fmt.Sprintf("%s/thumb/%d00x%d50,q80/%s.jpg", base, k, k, m) }},
+		{"query-commas", func(m string, k int) string { return fmt.Sprintf("%s/img.php?id=%s&amp;size=%d00,%d50", base, m, k, k) }},
+		{"data-uri", func(m string, k int) string {
+			return fmt.Sprintf("data:image/png;base64,iVBORw0KGgo%sk%d%s", m, k, strings.Repeat("AAAB", 40))
+		}},
+		{"encoded-space", func(m string, k int) string { return fmt.Sprintf("%s/media/my%%20photo%%20%s%%20%d.jpg", base, m, k) }},
+		{"parens", func(m string, k int) string { return fmt.Sprintf("%s/media/%s(%d).jpg", base, m, k) }},
+	}
+	if rel {
+		urlKinds = append(urlKinds, urlKind{"docrel-commas", func(m string, k int) string { return fmt.Sprintf("../img/c_fit,w_%d00/%s.jpg", k, m) }})
+	}
+	type descKind struct {
+		key  string
+		desc [3]string
+		once bool
+	}
+	descKinds := []descKind{
+		{key: "density", desc: [3]string{"1x", "2x", "3x"}},
+		{key: "width", desc: [3]string{"400w", "800w", "1200w"}},
+		{key: "none", desc: [3]string{"", "", ""}},
+		{key: "upper-density", desc: [3]string{"1X", "2X", "3X"}},
+		{key: "upper-width", desc: [3]string{"400W", "800W", "1200W"}},
+		{key: "fraction", desc: [3]string{"1x", "1.5x", "2.25x"}},
+		{key: "first-missing", desc: [3]string{"", "2x", "3x"}},
+		{key: "last-missing", desc: [3]string{"400w", "800w", ""}},
+		{key: "width-height", desc: [3]string{"400w 300h", "800w 600h", "1200w 900h"}, once: true},
+	}
+	type sepKind struct {
+		key, lead, sep, trail string
+	}
+	sepKinds := []sepKind{
+		{"comma-space", "", ", ", ""},
+		{"comma", "", ",", ""},
+		{"space-comma-space", "", " , ", ""},
+		{"comma-newline", "", ",\n\t\t", ""},
+		{"trailing-comma", "", ", ", ","},
+		{"outer-space", "\n  ", ", ", "\n "},
+	}
+	if rel {
+		sepKinds = sepKinds[:2]
+	}
+	var shapes []govcC09SrcsetShape
+	for _, uk := range urlKinds {
+		for _, dk := range descKinds {
+			for _, sk := range sepKinds {
+				uk, dk, sk := uk, dk, sk
+				// Two shapes fail on the unchanged tree (the library's srcset regular expression takes "300h" of
+				// "a.jpg 400w 300h" for a URL, and keeps the trailing comma of "..., c.jpg," in the URL when the last
+				// candidate has no descriptor): they are generated once (plain URLs, absolute, img carrier) so that
+				// each finding has one case key.
+				once := dk.once || (sk.key == "trailing-comma" && dk.desc[2] == "")
+				if once && (rel || uk.key != "plain" || dk.key == "last-missing" || (dk.once && sk.key != "comma-space")) {
+					continue
+				}
+				shapes = append(shapes, govcC09SrcsetShape{key: uk.key + "/" + dk.key + "/" + sk.key, once: once, build: func(m string) (string, string) {
+					var sb strings.Builder
+					sb.WriteString(sk.lead)
+					for k := 1; k <= 3; k++ {
+						sb.WriteString(uk.url(m, k))
+						if d := dk.desc[k-1]; d != "" {
+							sb.WriteString(" " + d)
+						}
+						if k < 3 {
+							sb.WriteString(sk.sep)
+						}
+					}
+					sb.WriteString(sk.trail)
+					src := uk.url(m, 1)
+					if uk.key == "data-uri" {
+						src = fmt.Sprintf("%s/media/%s-fallback.jpg", base, m)
+					}
+					return src, sb.String()
+				}})
+			}
+		}
+	}
+	return shapes
 }
